@@ -243,6 +243,7 @@ type LDOpts struct {
 	Coerce     bool  `json:"coerce,omitempty"`      // with Context: properties holding node references only get a term definition with "@type":"@id" and their references are written as strings
 	SetObj     bool  `json:"set_obj,omitempty"`     // write value arrays as {"@set":[…]}
 	PadBytes   int   `json:"pad_bytes,omitempty"`   // pad the document with insignificant white space up to this many bytes
+	EmptyProps bool  `json:"empty_props,omitempty"` // write the properties a node does not have (but another node has) with an empty value list: no triple, same graph
 }
 
 type omap struct {
@@ -386,6 +387,20 @@ func (g *Graph) JSONLD(o LDOpts) string {
 			order[i] = i
 		}
 	}
+	// every property used somewhere in the graph (for EmptyProps)
+	var vocabulary []string
+	if o.EmptyProps {
+		seenProp := map[string]bool{}
+		for _, n := range g.Nodes {
+			for p := range n.Props {
+				if !seenProp[p] && !strings.HasPrefix(p, NS+"filler") {
+					seenProp[p] = true
+					vocabulary = append(vocabulary, p)
+				}
+			}
+		}
+		sort.Strings(vocabulary)
+	}
 	emitted := map[int]bool{}
 	var nodeObj func(i int, allowEmbed bool, props []string) *omap
 	wrapVals := func(vals []any) any {
@@ -499,6 +514,19 @@ func (g *Graph) JSONLD(o LDOpts) string {
 				continue
 			}
 			m.set(iri(p), wrapVals(vals))
+		}
+		if props == nil && !strings.HasPrefix(n.ID, NodeNS+"filler") && !strings.HasPrefix(n.ID, "_:filler") {
+			for _, p := range vocabulary {
+				if len(n.Props[p]) == 0 {
+					if o.SetObj {
+						e := newOmap()
+						e.set("@set", []any{})
+						m.set(iri(p), e)
+					} else {
+						m.set(iri(p), []any{})
+					}
+				}
+			}
 		}
 		return m
 	}
